@@ -116,6 +116,32 @@ pub fn unit_call(w: &mut W, call: Call, data: &[u8], place: Place) -> bool {
                 let p = prop.clone();
                 w.viol_sig(f.rule, f.detail, call, place, data, sig, &p);
             }
+            // The same comparison on a REUSED value (C18 says history must not matter, so the
+            // grammar statements hold there too): one earlier call that stores every field, then
+            // this call; on Complete the result must still equal the spec's.
+            let kind = Kind::of(call.entry);
+            if matches!(prop.as_str(), "C06" | "C07" | "C08" | "C14") && (kind == Kind::Req || kind == Kind::Resp) && w.tier != Tier::Tiny && (o.res.st.is_complete() && w.rot(data) % 3 == 0) {
+                let is_req = kind == Kind::Req;
+                let first: &[u8] = if is_req { b"PUT /earlier/path HTTP/1.0\r\nEarlier: header\r\nSecond:" } else { b"HTTP/1.0 404 Earlier Reason\r\nEarlier: header\r\nSecond:" };
+                let fb = w.ctx.place_in(2, first, Place::End);
+                let pb = w.ctx.place_in(1, data, Place::End);
+                let steps = [
+                    crate::history::Step { entry: if is_req { Entry::R1 } else { Entry::S1 }, cfg: 0, buf: fb, ucap: call.cap },
+                    crate::history::Step { entry: call.entry, cfg: call.cfg, buf: pb, ucap: call.cap },
+                ];
+                let h = crate::history::run(&mut w.ctx, is_req, call.cap, &steps, call.backend);
+                w.st.evaluations += 2;
+                w.st.count("reused_value_spec_comparisons", 1);
+                if h.len() == 2 && !h[1].panicked {
+                    let mut o2 = o.clone();
+                    o2.res = h[1].res.clone();
+                    let cmp = if prop == "C06" || prop == "C07" { Cmp { class_only_err: true, start_line: true, headers: false } } else { Cmp { class_only_err: true, start_line: false, headers: true } };
+                    if let Some(f) = orc::vs_spec(pb, &o2, &s, cmp) {
+                        let d = format!("on a reused value (earlier call {}): {}", crate::report::esc(first), f.detail);
+                        w.viol("reused_value_differs_from_spec", d, call, place, data);
+                    }
+                }
+            }
             if prop == "C14" && info.dropped > 0 {
                 w.st.count("lines_dropped_by_ignore", info.dropped as u64);
             }
